@@ -318,6 +318,13 @@ type c09Pair struct {
 	cli   *arpc.Client
 	proxy *c09Proxy
 
+	// what the harness expects lastPushData / dataLatest to hold; used ONLY to
+	// decide how long a push window waits for push-done (never recorded)
+	seenTrans bool
+	latestNil bool
+	lastSum   uint64
+	lastQ     uint64
+
 	pushDone atomic.Int64
 	parkNext atomic.Bool   // park the next reply-computed point
 	parked   chan struct{} // signalled when a reply is parked
@@ -449,6 +456,7 @@ func newC09Pair(in *C09Input) (*c09Pair, error) {
 		p.Close()
 		return nil, fmt.Errorf("client/server not Ready")
 	}
+	p.helloed()
 	return p, nil
 }
 
@@ -541,6 +549,54 @@ func (p *c09Pair) trackedNames() am.S {
 	return am.StatesDiff(t, c09Sel(p.names, p.in.Skipped))
 }
 
+// curKey is (mTrackedTimeSum, queueTick) of the tracer's dataLatest.
+func (p *c09Pair) curKey() (uint64, uint64) {
+	if !p.seenTrans {
+		return 0, 1 // NewServer's placeholder
+	}
+	t := p.src.Time(nil)
+	var sum uint64
+	if p.in.Shallow {
+		for i, v := range t {
+			if p.in.NoSchema && indexOf(p.trackedNames(), p.names[i]) < 0 {
+				continue
+			}
+			sum += v % 2
+		}
+	} else {
+		for _, name := range p.trackedNames() {
+			sum += t[indexOf(p.names, name)]
+		}
+	}
+	return sum, p.src.QueueTick()
+}
+
+// exported: the server exported the current data (push-done or a reply).
+func (p *c09Pair) exported() {
+	p.lastSum, p.lastQ = p.curKey()
+	if p.in.SyncMut {
+		p.latestNil = true
+	}
+}
+
+// helloed: RemoteHello memorised the source as it is now.
+func (p *c09Pair) helloed() {
+	t := p.src.Time(nil)
+	p.lastSum = 0
+	for _, name := range p.trackedNames() {
+		p.lastSum += t[indexOf(p.names, name)]
+	}
+	p.lastQ = p.src.QueueTick()
+}
+
+func (p *c09Pair) pushExpected() bool {
+	if p.latestNil {
+		return false
+	}
+	s, q := p.curKey()
+	return s != p.lastSum || q != p.lastQ
+}
+
 // pushWindow lets the server push the latest data ("push-done" tells that
 // a push was produced; its absence means pushClient saw no change) and waits
 // for the client to have processed it.
@@ -550,12 +606,17 @@ func (p *c09Pair) pushWindow() {
 	}
 	before := p.pushDone.Load()
 	mb, _ := json.Marshal(p.mirror())
+	limit := 20 * c09Ticker
+	if p.pushExpected() {
+		limit = 500 * time.Millisecond
+	}
 	p.openWindow()
-	deadline := time.Now().Add(20 * c09Ticker)
+	deadline := time.Now().Add(limit)
 	for time.Now().Before(deadline) && p.pushDone.Load() == before {
 		time.Sleep(c09Ticker / 4)
 	}
 	if p.pushDone.Load() != before {
+		p.exported()
 		d2 := time.Now().Add(20 * c09Ticker)
 		for time.Now().Before(d2) {
 			ma, _ := json.Marshal(p.mirror())
@@ -646,6 +707,10 @@ func c09Exec(in *C09Input) (obs *c09Obs) {
 		rs, n := p.wrap.take()
 		if n > 0 {
 			st.ResSrc = c09Res(rs)
+			if !st.Parked {
+				p.seenTrans, p.latestNil = true, false
+				p.exported()
+			}
 		}
 	}
 
@@ -655,12 +720,16 @@ func c09Exec(in *C09Input) (obs *c09Obs) {
 		switch op.Kind {
 		case "local":
 			c09Mutate(p.src, op.Mut, c09Sel(p.names, op.States))
+			p.seenTrans, p.latestNil = true, false
 		case "client":
 			clientCall(&st, op.Mut, op.States, nil)
 		case "race":
 			clientCall(&st, op.Mut, op.States, func() {
 				st.Trans = p.tr.take()
+				p.seenTrans, p.latestNil = true, false
+				p.exported()
 				c09Mutate(p.src, op.Mut2, c09Sel(p.names, op.States2))
+				p.latestNil = false
 				p.pushWindow()
 				st.Trans2 = p.tr.take()
 				m2 := p.mirror()
@@ -704,6 +773,7 @@ func c09Exec(in *C09Input) (obs *c09Obs) {
 				time.Sleep(2 * time.Millisecond)
 			}
 			if st.Rehello {
+				p.helloed()
 				d2 := time.Now().Add(time.Second)
 				for time.Now().Before(d2) {
 					if p.srv.Mach.Is1(ssrpc.ServerStates.Ready) {
